@@ -55,6 +55,7 @@ TRUSTED = [
     "decision procedure with tolerance 1e-11 * scale (tolerance stream)",
     "the projection matrix P itself is an oracle value here (what each method computes before the tail of "
     "embed() is the subject of C06/C10/C19)",
+    "tolerances on the public-API stream are RELATIVE: 1e-11 * max|P| * (max|x| + max|mean|) * D, no absolute floor",
     "g++ ASan + _GLIBCXX_ASSERTIONS as the memory-safety observer (UBSan in addition in the thorough tier only: the "
     "driver instantiates all twenty methods and UBSan adds 25 s to its build)",
 ]
@@ -182,7 +183,29 @@ def with_ids(rng, c, how=None):
     N = len(X)
     if N == 0 or c.get("ids") is not None:
         return c
-    how = how or rng.choice(["offset", "perm", "subset", "reversed"])
+    if how is None:
+        kinds = ["offset", "perm", "subset", "reversed"]
+        if N >= 3 and (c["kind"] != "EMB" or c["method"] not in NEIGHBOUR_BASED):
+            kinds.append("repeat")
+        how = rng.choice(kinds)
+    if how == "repeat":
+        # the range names some samples SEVERAL times (legal: [begin, end) is any sequence of ids); the training
+        # set then contains coincident samples, and dependent queries are recomputed
+        M = max(2, N - rng.randint(1, max(1, N // 3)))
+        ids = list(range(M)) + [rng.randrange(M) for _ in range(N - M)]
+        rng.shuffle(ids)
+        Xall = [list(r) for r in X[:M]]
+        cc = dict(c, X=Xall, M=M, ids=ids, range=how)
+        if cc.get("combos"):
+            Xt = [Xall[i] for i in ids]
+            Q = [list(q) for q in cc["Q"]]
+            for cb in cc["combos"]:
+                a = cb["a"]
+                Q[cb["q"]] = [Fraction(float(a * Xt[cb["i"]][t] + (1 - a) * Xt[cb["j"]][t])) for t in range(len(Xt[0]))]
+            cc["Q"] = Q
+        if cc["kind"] == "EMB" and cc["method"] == "pca":
+            cc["solver"] = "dense"
+        return cc
     if how == "offset":
         a, b = rng.randint(1, 3), rng.randint(0, 2)
         M, ids = N + a + b, list(range(a, a + N))
@@ -335,6 +358,8 @@ def gen_emb(rng, meth, size="small"):
         if size != "small":
             N = rng.choice([32, 64, 50])
         d = rng.randint(1, max(1, min(D, N - 1)))
+        if meth == "rp" and rng.random() < 0.3:       # random projection may also go UP in dimension (d < N)
+            d = rng.randint(1, max(1, min(D + 3, N - 1)))
         k = 5
         style = rng.choice(["int", "dyadic", "offset", "ties", "generic"])
         X = gen_matrix(rng, N, D, style)
@@ -832,16 +857,22 @@ def hist_key(c):
     return base
 
 
-def variants(rng, base, p_ids, p_scaled):
-    """a generated case, possibly moved to a non-identity iterator range, plus (possibly) its scaled copy"""
+_variant_counter = [0]
+
+
+def variants(rng, base, ids_every, scaled_every):
+    """a generated case, moved to a non-identity iterator range for every `ids_every`-th call, plus its scaled copy
+    for every `scaled_every`-th call (0 = never).  Deterministic counters: the number of cases is fixed by the tier."""
+    _variant_counter[0] += 1
+    j = _variant_counter[0]
     out = []
     c = base
-    if c["kind"] != "MPI" and c.get("N", 0) >= 2 and rng.random() < p_ids:
+    if ids_every and j % ids_every == 0 and c["kind"] != "MPI" and c.get("N", 0) >= 2:
         c = with_ids(rng, c)
     out.append(c)
-    if rng.random() < p_scaled:
-        j = rng.choice([-20, -7, 0, 0, 9, 20]) if "P" in c else 0
-        out.append(scaled_copy(c, rand_scale(rng), j))
+    if scaled_every and j % scaled_every == 0:
+        jj = rng.choice([-20, -7, 0, 0, 9, 20]) if "P" in c else 0
+        out.append(scaled_copy(c, rand_scale(rng), jj))
     return out
 
 
@@ -858,23 +889,23 @@ def build_cases(ctx, quick):
     generated = []
     # exact stream: plain, mixed magnitudes, boundary sizes; each possibly over a non-identity range, each
     # (quick: every second one on average, thorough: every one) also as a scaled copy
-    p_scaled = 0.6 if quick else 1.0
+    _variant_counter[0] = 0
     for c in gen_internal(rng, n_int):
-        generated += variants(rng, c, 0.3, p_scaled)
+        generated += variants(rng, c, 3, 2 if quick else 1)
     for c in gen_mixed(rng, 8 if quick else 120):
-        generated += variants(rng, c, 0.3, 0.0)          # mixed magnitudes are already scale-specific
+        generated += variants(rng, c, 3, 0)              # mixed magnitudes are already scale-specific
     for c in gen_boundary_internal(rng, BOUNDARY_N_QUICK if quick else BOUNDARY_N_THOROUGH, quick):
-        generated += variants(rng, c, 0.0, 0.5 if quick else 1.0)
+        generated += variants(rng, c, 0, 2 if quick else 1)
     # public API
     n_emb = {"pca": 16, "rp": 10, "npe": 5, "lltsa": 5, "lpp": 5} if quick else \
             {"pca": 400, "rp": 200, "npe": 80, "lltsa": 80, "lpp": 80}
     for meth, n in n_emb.items():
         for j in range(n):
-            generated += variants(rng, gen_emb(rng, meth, "small" if (quick or j % 4) else "large"), 0.4, 1.0)
+            generated += variants(rng, gen_emb(rng, meth, "small" if (quick or j % 4) else "large"), 2, 1)
     for meth in (("pca", "rp") if quick else FIVE):
         sizes = BOUNDARY_N_QUICK if quick else (BOUNDARY_N_THOROUGH if meth in ("pca", "rp") else [255, 256, 257])
         for N in sizes:
-            generated += variants(rng, gen_boundary_emb(rng, meth, N), 0.3, 0.5)
+            generated += variants(rng, gen_boundary_emb(rng, meth, N), 3, 2)
     for c in generated:
         key = hist_key(c)
         bump(hist, key)
@@ -908,13 +939,13 @@ def run(ctx):
         extra = []
         for meth in FIVE:
             for j in range(30 if meth in NEIGHBOUR_BASED else 120):
-                extra += variants(ctx.rng, gen_emb(ctx.rng, meth, "small" if j % 3 else "large"), 0.4, 0.7)
+                extra += variants(ctx.rng, gen_emb(ctx.rng, meth, "small" if j % 3 else "large"), 2, 1)
         for meth in ("pca", "rp"):
             for N in BOUNDARY_N_THOROUGH:
-                extra += variants(ctx.rng, gen_boundary_emb(ctx.rng, meth, N), 0.3, 0.3)
+                extra += variants(ctx.rng, gen_boundary_emb(ctx.rng, meth, N), 3, 3)
         for c in gen_internal(ctx.rng, 300) + gen_mixed(ctx.rng, 60) + \
                 gen_boundary_internal(ctx.rng, BOUNDARY_N_THOROUGH, False):
-            extra += variants(ctx.rng, c, 0.3, 0.7)
+            extra += variants(ctx.rng, c, 3, 1)
         v2 = evaluate(ctx, exe, mexe, extra, st)
         searched = len(extra)
         cases += extra
@@ -954,7 +985,13 @@ def run(ctx):
              "inputs (N a power of two for the mean), compared exactly with the extracted Qc model and by the "
              "extracted decision procedures with tol = 0; public API = the five projecting methods on int / dyadic / "
              "large-offset / coincident / generic data, with unseen query vectors and dyadic affine combinations "
-             "(a in {0..1, -1/2, 3/2}); the fifteen other methods once each on a benign sheet.  non-trivial = "
+             "(a in {0..1, -1/2, 3/2}); the fifteen other methods once each on a benign sheet.  Wave 2: exact stream with "
+             "mixed magnitudes (mean 2^-41..2^-44 against integer data and vice versa) and at boundary sizes (N in 255, "
+             "256, 257, 512; D, d in 7..33); PCA / RandomProjection through the public API at N in 255, 256, 257, 512; "
+             "every third generated case over a non-identity iterator range (offset block, permutation, subset, reversed, "
+             "repeated ids; decoy samples elsewhere in the data set); every (internal: every second) case also as a scaled "
+             "copy (data * 2^k, k in +-{10, 30, 40, 45, 52, 60}; input P * 2^j), tolerances relative to the data scale.  "
+             "non-trivial = "
              "projecting API case with N >= 3, MEAN/PROJ with N >= 2, MPI with D >= 2; distinct by hash of the case.",
         samples=samples,
         histogram={"generators": hist, "verdicts": {v: verdicts.count(v) for v in set(verdicts)},
